@@ -84,6 +84,13 @@ pub fn stop_trace() -> Vec<Event> {
     LOG.with(|l| std::mem::take(&mut *l.borrow_mut()))
 }
 
+/// Number of runtime events recorded so far on this thread (lets an embedding target
+/// order its own observations relative to the expression events).
+#[must_use]
+pub fn log_len() -> usize {
+    LOG.with(|l| l.borrow().len())
+}
+
 /// Start recording `compile_expr` results on this thread.
 pub fn start_compile_log() {
     COMPILE_ACTIVE.with(|a| a.set(true));
